@@ -157,6 +157,14 @@ reply control_connection::recv()
         {
             line = read_line();
 
+            /* An empty line means that the connection was closed by the
+             * server in the middle of the multi-line reply.
+             */
+            if (line.empty())
+            {
+                throw ftp_exception("Cannot receive a complete reply from the server: '%1%'.", status_string);
+            }
+
             status_string += line;
 
             if (is_last_line(line, code))
